@@ -11,6 +11,9 @@ Python                                                   Lean
    that does not start a file, then the block
 rows a line-oriented parser gets from a block              `blockRows` = lines of the text after the header line
 `dd.read_csv(path, blocksize=bs)` as a list of rows        `readCsvParts`, `readCsvRows`
+`headerOf` is the first PHYSICAL line: what the code took before fix e673923; the options model (`Model/CsvOpts.lean`,
+`headerBytes` = `_header_row`) follows the repaired code, and `C47.headerOf_agrees` / `C47.csv_models_agree` show that the
+two models coincide on files whose first line is not blank / that hold no blank line.
 Quotes are not modelled: a line terminator inside a quoted field is an ordinary terminator here (the
 statement's "quoted fields near block boundaries" part is checked on the real code only).
 -/
